@@ -1039,6 +1039,37 @@ func GenExec(t *rapid.T, f Features) *ExecCase {
 		g.class("barrier")
 	}
 	body = append(body, g.blockNoScope(g.stmtBudget, 3)...)
+	if g.chance(25, "wzh") && !f.off("workgroup") && !f.off("workgroup.helper-only") {
+		// a workgroup variable that only a helper names and nothing writes: it must read as zero, wherever the
+		// entry point calls that helper from (then / else branch, loop body, switch case)
+		if cands := g.pathsTo([]Expr{g.outSlot()}, func(t *Type) bool { return t.Same(TU32) }); len(cands) > 0 {
+			g.class("workgroup-var:helper-only")
+			wz := &Var{Name: g.name("wz"), Kind: VWorkgroup, T: Array(TU32, 4)}
+			addGlobal(wz)
+			pi := &Var{Name: g.name("p"), Kind: VParam, T: TU32}
+			rf := &Func{Name: g.name("wzread_"), Params: []*Var{pi}, Ret: TU32}
+			rf.Body = []Stmt{&Return{X: &Index{X: &VarRef{wz}, I: &Binary{Op: "%", L: &VarRef{pi}, R: &Lit{T: TU32, Bits: 4}, T: TU32}, T: TU32}}}
+			g.mod.Decls = append(g.mod.Decls, rf)
+			slot := func() Expr { return g.buildPath(cands[g.intn(len(cands), "wzs")], 1, true) }
+			call := &Assign{L: slot(), R: &Binary{Op: "+", L: &CallE{Fn: rf, Args: []Expr{g.runtimeLeaf(U32)}}, R: &Lit{T: TU32, Bits: 7}, T: TU32}}
+			other := &Assign{L: slot(), R: g.runtimeLeaf(U32)}
+			switch g.intn(5, "wzpos") {
+			case 0:
+				body = append(body, call)
+			case 1:
+				body = append(body, &If{Cond: g.expr(TBool, 2), Then: []Stmt{call}, Else: []Stmt{other}})
+			case 2:
+				g.class("workgroup-var:helper-only:else")
+				body = append(body, &If{Cond: g.expr(TBool, 2), Then: []Stmt{other}, Else: []Stmt{call}})
+			case 3:
+				g.class("workgroup-var:helper-only:else")
+				body = append(body, &If{Cond: g.expr(TBool, 2), Then: []Stmt{other}, Else: []Stmt{&If{Cond: g.expr(TBool, 1), Then: []Stmt{other}, Else: []Stmt{call}}}})
+			default:
+				sel := &Binary{Op: "%", L: g.runtimeLeaf(U32), R: &Lit{T: TU32, Bits: 3}, T: TU32}
+				body = append(body, &Switch{Sel: sel, Cases: []*Case{{Sels: []Expr{&Lit{T: TU32, Bits: 1}}, Body: []Stmt{other}}, {Default: true, Body: []Stmt{call}}}})
+			}
+		}
+	}
 	// observability: store visible locals into matching output slots
 	for _, sv := range g.visible() {
 		if sv.v.Kind == VParam || sv.v.T.K == TPtr {
